@@ -1,4 +1,5 @@
 import Yuiv.Proofs.C18
+import Yuiv.Proofs.C18Orbit
 /-
 C18 — link diagrams: components, signs, resolutions and braid closures.
 
@@ -88,6 +89,41 @@ example : crossingSigns (fromPD [[1,4,2,5],[3,6,4,1],[5,2,6,3]]) = .ok [.neg, .n
 /-- a crossing and its mirror image have the same smoothings, with the roles of 0 and 1 exchanged -/
 theorem crossing_resolve_mirror (c : Crossing) (b : Bool) : c.mirror.resolve (!b) = c.resolve b :=
   Crossing.resolve_mirror c b
+
+/-! ### D. valid PD codes: the walk enumerates an orbit and returns (no panic)
+
+`Valid l`: every label occurs in exactly two slots.  `HE l h`: `h = (i, j)` is a slot (`i < n`, `j < 4`).
+`step l h`: through the crossing (`pass`), then to the other end of the edge (`pass_edge`). -/
+
+/-- on a valid code `pass_edge` is a fixed-point-free, label-preserving involution of the slots -/
+theorem passEdge_valid (l : Link) (hv : Valid l) (h : Nat × Nat) (hh : HE l h) :
+    ∃ h', passEdge l h.1 h.2 = some h' ∧ HE l h' ∧ h' ≠ h ∧
+      edgeAt l h'.1 h'.2 = edgeAt l h.1 h.2 ∧ passEdge l h'.1 h'.2 = some h :=
+  passEdge_valid' l hv h hh
+
+/-- the half-edge map sends slots to slots and is injective on them (so it permutes the `4n` slots) -/
+theorem step_injective (l : Link) (hv : Valid l) (a b : Nat × Nat) (ha : HE l a) (hb : HE l b) :
+    HE l (step l a) ∧ (step l a = step l b → a = b) :=
+  ⟨(step_spec l hv a ha).2.1, step_inj l hv a b ha hb⟩
+
+/-- `traverse_edges` on a valid code never reaches the `4·n` bound: it reports the slots
+`s, step s, step² s, …` (here `v`, most recent first) without repetition, all of them slots of `l`,
+closes up (`step` of the last one is `s`) after at most `4·n` steps and reports `s` once more. -/
+theorem traverse_orbit (l : Link) (hv : Valid l) (s : Nat × Nat) (hs : HE l s) :
+    ∃ v, traverse l s = .ok (v.reverse ++ [s]) ∧ RChain (step l) s v ∧ v.Nodup ∧
+      step l (v.headD s) = s ∧ 0 < v.length ∧ v.length ≤ 4 * l.length ∧ (∀ h ∈ v, HE l h) := by
+  obtain ⟨v, h1, h2, h3, h4, h5, _⟩ :=
+    traverseLoop_valid l hv s hs (4 * l.length) s [] rfl (by simp) (by simp)
+  refine ⟨v, h1, h2, h3, h4, ?_, h5, ?_⟩
+  · cases v with
+    | nil => exact h2.elim
+    | cons a r => simp
+  · exact RChain.all_mem (HE l) hs (fun x hx => (step_spec l hv x hx).2.1) h2
+
+example : Valid (fromPD [[4,2,5,1],[8,6,1,5],[6,3,7,4],[2,7,3,8]]) := by decide
+example : traverse (fromPD [[0,0,1,1]]) (0, 0) = .ok [(0,0),(0,3),(0,0)] := by decide
+/-- the bound is sharp for malformed codes: a label occurring three times makes the walk panic -/
+example : traverse (fromPD [[1,2,1,1]]) (0, 1) = .panic := by decide
 
 /-! ### C. braid closure -/
 
